@@ -59,9 +59,8 @@ class _FileProxy:
             return len(s)
         n = len(s.encode('utf-8')) if isinstance(s, str) else len(s)
 
-        def do():
+        def do():        # buffered: a crash flushes what was written so far (Tap.step closes the proxies)
             self._f.write(s)
-            self._f.flush()
             return len(s)
 
         def partial(cut):
@@ -659,8 +658,8 @@ class Runner:
                 else:
                     pts.append((k, 0))
             return pts
-        ks = {0, 1, 2, n - 3, n - 2, n - 1, n}
-        for _ in range(4):
+        ks = {0, 1, n - 2, n - 1, n}
+        for _ in range(3):
             ks.add(prng.below(n + 1))
         for k in sorted(x for x in ks if 0 <= x <= n):
             if k < n and steps[k][0] == 'write':
@@ -888,8 +887,9 @@ def run(ctx):
                 '(ediv 0/65535/large/negative, empty rand, both authenticated values, address/link-key types), sometimes a '
                 'missing directory or a file written by another tool; in-line crashes continue the history from the '
                 'crashed files. For every mutating operation the real step list is recorded and the operation is '
-                're-run from the same files with the process dying before step k (first/last steps and random writes '
-                'with a random cut; thorough: every step and three cuts per write in short histories). Non-trivial: at '
+                're-run from the same files with the process dying before step k (first two, last three steps and '
+                'three random ones, writes with a random cut; every step and three cuts per write in the short '
+                'histories of the sweep). Non-trivial: at '
                 'least two saving operations; distinct by content.')
     ctx.assumptions += [
         'os.replace is atomic and a process crash loses no write that reached the file (no power-loss model)',
@@ -906,9 +906,9 @@ def run(ctx):
         cases.append((h, 'all'))
     for h in directed_histories():
         cases.append((h, 'sample' if ctx.quick() else 'all'))
-    for _ in range(ctx.n(110, 1500)):
-        cases.append((gen_history(rng, rng.choice([3, 6, 10, 16])), 'sample'))
-    for _ in range(ctx.n(12, 250)):
+    for _ in range(ctx.n(64, 1500)):
+        cases.append((gen_history(rng, rng.choice([3, 5, 8, 12] if ctx.quick() else [3, 6, 10, 16])), 'sample'))
+    for _ in range(ctx.n(8, 250)):
         cases.append((gen_history(rng, rng.choice([2, 4, 6]), small=True, crashes=False), 'all'))
     try:
         batch = []
@@ -934,7 +934,7 @@ def run(ctx):
                 ctx.violation(sig, what, {'history': hist, 'sweep': sweep})
         ctx.log(f'implementation: {len(batch)} histories run')
         exprs = [model_expr(h, r) for h, r in batch]
-        model = ctx.coq_eval(['Model.KeyStore'], exprs, shard=40)
+        model = ctx.coq_eval(['Model.KeyStore'], exprs, shard=16 if ctx.quick() else 40)
         ctx.log('model evaluated')
         k = 0
         for (hist, res), mres in zip(batch, model):
